@@ -639,7 +639,7 @@ impl Check for C12 {
         CheckInfo {
             id: "C12",
             level: "exploration",
-            rule: "one run = one call history (1-12 read calls incl. wrong-type loads, stream data, raw/decoded image data, page look-ups, lazy loads; resolver reuse or renewal; eviction faults between and inside calls; File::set_options between calls, strict <-> tolerant as a whole or - one random run in sixteen, on rich documents in which every second font / image / form / annotation / resource / inner page node lacks its endobj - exactly one option) on a document opened with {both caches, object cache only, stream cache only}; reference = each call alone on a fresh uncached document opened under the options in force. Enumerated part: every ordered pair (quick) / triple (thorough) of the call kinds applicable to each sampled object and page, x 3 cache modes x {strict, tolerant}. Non-trivial = the history makes at least two calls and at least one cache compute ran; distinct = hash of (document, configuration, history, answers)",
+            rule: "one run = one call history (1-12 read calls incl. wrong-type loads, stream data, raw/decoded image data, page look-ups, lazy loads; resolver reuse or renewal; eviction faults between and inside calls; File::set_options between calls, strict <-> tolerant as a whole or - one random run in sixteen, on rich documents in which every second font / image / form / annotation / resource / inner page node lacks its endobj - exactly one option) on a document (one random run in sixteen: a rich document whose catalog is a member of an object stream, plain or RC4-encrypted) opened with {both caches, object cache only, stream cache only}; reference = each call alone on a fresh uncached document opened under the options in force; opening is a call too (a document that opens without caches opens with them). Enumerated part: every ordered pair (quick) / triple (thorough) of the call kinds applicable to each sampled object and page, x 3 cache modes x {strict, tolerant}. Non-trivial = the history makes at least two calls and at least one cache compute ran; distinct = hash of (document, configuration, history, answers)",
             assumptions: vec![
                 "reference model: the library's own uncached, single-call behaviour (a defect that changes cached and uncached answers identically is invisible here)".into(),
                 "answers are compared through canonical digests of their Debug rendering (HashMap order and Lazy load state normalised); two errors are 'the same kind' when their root-cause variant (and free-text message) agree".into(),
